@@ -310,11 +310,41 @@ Definition NE := %d. Definition NN := %d.
 """ % (NE, NN)
 
 
+HMOD = 2147483629
+
+
+def zhash(full, acc=7):
+    for x in full:
+        acc = (acc * 1000003 + x + 17) % HMOD
+    return acc
+
+
+def compact(full):
+    """What is sent to Coq per operation: result code, created id, current env, pointer, active id
+    exactly + a 31-bit hash of the complete encoding (Model/Llamactl.v `compact`)."""
+    return list(full[:5]) + [zhash(full)]
+
+
 def case_expr(ops, outs):
-    """Z-valued Coq term: 0 when the model's run of `ops` yields exactly `outs` (one list per op:
-    result code, created id, observation), else 1 + index of the first differing op."""
+    """Z-valued Coq term: 0 when the model's run of `ops` agrees with `outs` (one complete encoding
+    per op: result code, created id, observation), else the 1-based index of the first differing op."""
     return "run_check NE NN %s %s" % (glist(g_op(o) for o in ops),
-                                      glist(glist(gz(z) for z in o) for o in outs))
+                                      glist(glist(gz(z) for z in compact(o)) for o in outs))
+
+
+def trace_term(ops):
+    return "run_trace NE NN init %s" % glist(g_op(o) for o in ops)
+
+
+def split_trace(zs):
+    out, cur = [], []
+    for z in zs:
+        if z == -7:
+            out.append(cur)
+            cur = []
+        else:
+            cur.append(z)
+    return out
 
 
 # ---- generator ----------------------------------------------------------------------------
@@ -409,8 +439,9 @@ class Monitor:
             p = w.svc.current_auth_service().get_profile(NAMES[op[1]])
             self._pre = w.pid(p.id) if p else None
         elif op[0] == "selany":
-            ps = w.svc.current_auth_service().list_profiles()
-            self._pre = w.pid(ps[0].id) if ps else None
+            # "select any profile": the user names no profile; whichever profile of the current
+            # environment the operation activates is the selection (decided in `after`)
+            self._pre = None
 
     def after(self, op, rc, created_idx, st):
         """Returns None or (key, description)."""
@@ -418,8 +449,10 @@ class Monitor:
         if env != self.env:
             self.env = env
             self.picked = set()
-        if op[0] in ("select", "selany") and self._pre is not None:
+        if op[0] == "select" and self._pre is not None:
             self.picked.add(self._pre)
+        if op[0] == "selany" and st["active"]:
+            self.picked.add(st["active"])
         if created_idx:
             self.picked.add(created_idx)
         known = env < NE and st["envs"][env] != 0
@@ -479,12 +512,16 @@ def run_history(world, ops, monitor=True):
             hit(lab)
         if mon:
             mon.before(op)
+        if op[0] == "switch" and not world.env_known(URLS[op[1]]):
+            hit("switch_to_unknown_env")
+        if op[0] == "create" and (op[2] == 0 or world.cm.get_profile(NAMES[KEYNAME[op[1]]], world.current_env())):
+            hit("create_duplicate_or_blank")
+        if op[0] == "select" and not world.cm.get_profile(NAMES[op[1]], world.current_env()):
+            hit("select_missing_name")
         rc, aid = world.apply(op)
         st = world.state()
         outs.append([rc, aid] + world.observe(st))
         hit("op_" + op[0])
-        if rc == RC_VALUEERROR:
-            hit("rejected_" + op[0])
         if st["active"]:
             hit("active_some")
         if st["cur"] is not None and not st["active"]:
@@ -618,4 +655,8 @@ def explore(base, depth, alphabet=None):
 
 
 def edge_expr(lit, op, out):
-    return "edge_check NE NN %s %s %s" % (lit, g_op(op), glist(gz(z) for z in out))
+    return "edge_check NE NN %s %s %s" % (lit, g_op(op), glist(gz(z) for z in compact(out)))
+
+
+def edge_trace_term(lit, op):
+    return "edge_trace NE NN %s %s" % (lit, g_op(op))
